@@ -9,6 +9,8 @@ R7.6  str-enum options (NamingStrategy, HTTPMethod) are compared by value, never
       string is honoured
 R7.8  every member of HTTPMethod passes the path-item key filter of parse_operations (skip tests evaluated per member)
 R7.9  CLEAN strategy: the path-derived suffix compared with the lower-cased id is itself case-folded (string-shape interpretation)
+R7.10 a rendered method is never served from a cache keyed by the operation alone (rendering registers imports in the current module's context)
+R7.11 sanitize_method_name returns a valid ASCII identifier for every input (string-shape interpretation)              [= R20.1]
 R7.7  the tag grouping key is at least as coarse as the module / class names derived from a tag (no two groups share a file)
 R7.5  no filter between grouping and emission: every operation of a tag is visited, every tag yields a file, a
       class entry and an APIClient property
@@ -35,8 +37,42 @@ def _always_raises(body: List[ast.stmt]) -> bool:
     return False
 
 
+class _R711:
+    def __init__(self, rep):
+        self.rep = rep
+
+    def ok(self, rule, *a, **k):
+        self.rep.ok("R7.11", *a, **k)
+
+    def violation(self, rule, *a, **k):
+        self.rep.violation("R7.11", *a, **k)
+
+    def error(self, msg):
+        self.rep.error(msg.replace("R20.1", "R7.11"))
+
+    def require(self, cond, msg):
+        self.rep.require(cond, msg.replace("R20.1", "R7.11"))
+
+    def count(self, *a, **k):
+        pass
+
+
 def run(repo: Repo, rep: Report, tier: str) -> None:
     po = repo.func("core.loader.operations.parser:parse_operations")
+    # ---------------------------------------------------------------- R7.10 / R7.11
+    from rules._memo import persistent_memo_rule
+
+    persistent_memo_rule(repo, rep, "R7.10", ("visit", "emitters"),
+                         "Rendering a method also registers its imports in the render context of the module being written: an operation with several tags that is "
+                         "served from the cache lands in the later tag modules without its imports (NameError when the package is imported)")
+    # method names are valid, plain-ASCII identifiers whatever the operationId contains (a name Python cannot parse - or folds onto
+    # another by NFKC - makes the tag module unimportable / drops a method)                                   [= R20.1, sanitize_method_name]
+    from rules import c20 as _c20
+
+    ns = repo.module("core.utils").classes["NameSanitizer"]
+    if "sanitize_method_name" not in ns.methods:
+        raise AnalysisError("anchor vanished: NameSanitizer.sanitize_method_name")
+    _c20._shape_rule(ns.methods["sanitize_method_name"], _c20.SANITIZERS["sanitize_method_name"], _R711(rep))
     # ---------------------------------------------------------------- R7.1
     n_h = 0
     for tr in [n for n in own_nodes(po.node) if isinstance(n, ast.Try)]:
